@@ -360,9 +360,22 @@ def r04_4(run):
             shape_ok = lt == rt and a in src(l) and b in src(rr)
             why = 'the two sides are not the same function of the two arguments: %s' % src(r)
         elif isinstance(r, ast.Call) and (dotted(r.func) or '').endswith('compare_digest'):
-            args = [dotted(x) for x in r.args]
-            shape_ok = sorted(args) == sorted([a, b])
-            why = 'compare_digest not applied to both arguments'
+            cvd = local_defs(cv)
+
+            def _res(x, depth=0):
+                # a local bound once stands for its definition (digest_a = hmac.new(nonce, a, ...).digest())
+                if isinstance(x, ast.Name) and x.id not in (a, b) and depth < 3:
+                    d_ = single_def(cvd, x.id)
+                    if d_ is not None and d_[0] == 'expr':
+                        return _res(d_[1], depth + 1)
+                return x
+            if len(r.args) == 2:
+                l, rr = _res(r.args[0]), _res(r.args[1])
+                shape_ok = (src(l).replace(a, '\0') == src(rr).replace(b, '\0') and a in src(l) and b in src(rr)) or \
+                    (src(l).replace(b, '\0') == src(rr).replace(a, '\0') and b in src(l) and a in src(rr))
+            else:
+                shape_ok = False
+            why = 'compare_digest not applied to the same function of both arguments'
     elif uses_zip or loops:
         if not has_len:
             shape_ok = False
